@@ -325,7 +325,7 @@ fn ignored(name: &str) -> bool {
         || base.starts_with("metrics.")
 }
 
-fn query_gauges(worker: &mut lab::LabWorker) -> Result<Gauges, String> {
+pub(super) fn query_gauges(worker: &mut lab::LabWorker) -> Result<Gauges, String> {
     let opts = QueryMetricsOptions { list: false, cluster_ids: vec![], backend_ids: vec![], metric_names: vec![], no_clusters: false, workers: false };
     let r = worker.request(RequestType::QueryMetrics(opts)).map_err(|e| format!("{e:?}"))?;
     if r.status != ResponseStatus::Ok as i32 {
@@ -363,7 +363,7 @@ fn query_gauges(worker: &mut lab::LabWorker) -> Result<Gauges, String> {
 }
 
 /// gauges whose value differs (a gauge absent on one side counts as 0): (name, baseline, now)
-fn drift(baseline: &Gauges, now: &Gauges) -> Vec<(String, u64, u64)> {
+pub(super) fn drift(baseline: &Gauges, now: &Gauges) -> Vec<(String, u64, u64)> {
     let names: BTreeSet<&String> = baseline.keys().chain(now.keys()).collect();
     names
         .into_iter()
@@ -374,7 +374,7 @@ fn drift(baseline: &Gauges, now: &Gauges) -> Vec<(String, u64, u64)> {
         .collect()
 }
 
-fn underflows() -> u64 {
+pub(super) fn underflows() -> u64 {
     sozu_lib::metrics::verif_gauges::gauge_underflows()
 }
 
@@ -404,7 +404,7 @@ fn bound_not_listening() -> (SocketAddr, OwnedFd) {
 
 /// echo backend of the TCP cluster: every byte goes back; a `!` in the stream makes the backend close
 /// once it has echoed it
-fn serve_echo(mut stream: TcpStream) {
+pub(super) fn serve_echo(mut stream: TcpStream) {
     let mut buf = vec![0u8; 65536];
     let mut last = Instant::now();
     loop {
@@ -600,7 +600,7 @@ impl Write for Conn {
     }
 }
 
-fn set_linger0(s: &TcpStream) {
+pub(super) fn set_linger0(s: &TcpStream) {
     let l = libc::linger { l_onoff: 1, l_linger: 0 };
     unsafe {
         libc::setsockopt(s.as_raw_fd(), libc::SOL_SOCKET, libc::SO_LINGER, &l as *const _ as *const libc::c_void, std::mem::size_of::<libc::linger>() as u32);
